@@ -554,6 +554,14 @@ func (v *PolicyVerifier) VerifyRelativeForRef(ctx context.Context, firstEntry, l
 						slog.Debug("Setting current policy...")
 					}
 
+					// The new policy takes effect for the entries that
+					// follow, so it must be internally consistent as
+					// well: its rule files must be signed as its own
+					// root and delegations require
+					if err := newPolicy.Verify(ctx); err != nil {
+						return fmt.Errorf("policy '%s' has invalidly signed metadata: %w", entry.GetID().String(), err)
+					}
+
 					currentPolicy = newPolicy
 
 					if v.persistentCacheEnabled {
